@@ -287,6 +287,8 @@ fn runs_s(obs: &[Obs]) -> String {
 
 // ---------- monitor: the property on what the real proxies answered, from the real cluster view only ----------
 struct Truth {
+    one_slot_ranges: usize,                  // ranges (any tag) of master nodes that consist of exactly one slot
+    short_ranges: usize,                     // ... of fewer than 4 slots
     owner: Vec<Option<u64>>,                 // stable / migrating owner node per slot
     mig: Vec<Option<(String, u64, u64)>>,    // migration of the slot, if any
     dup: usize,                              // slots with more or fewer than one owner
@@ -296,11 +298,24 @@ fn truth_of(c: &Cluster) -> Truth {
     let mut owner = vec![None; SLOTS];
     let mut cnt = vec![0usize; SLOTS];
     let mut mig = vec![None; SLOTS];
+    let mut one_slot_ranges = 0usize;
+    let mut short_ranges = 0usize;
     for n in c.get_nodes() {
         if n.get_role() != Role::Master {
             continue;
         }
         for sr in n.get_slots() {
+            for r in sr.range_list.get_ranges() {
+                if r.end() >= r.start() {
+                    let len = r.end() - r.start() + 1;
+                    if len == 1 {
+                        one_slot_ranges += 1;
+                    }
+                    if len < 4 {
+                        short_ranges += 1;
+                    }
+                }
+            }
             let m = match &sr.tag {
                 SlotRangeTag::Importing(_) => continue,
                 SlotRangeTag::Migrating(m) => Some((
@@ -322,7 +337,7 @@ fn truth_of(c: &Cluster) -> Truth {
         }
     }
     let dup = cnt.iter().filter(|c| **c != 1).count();
-    Truth { owner, mig, dup }
+    Truth { one_slot_ranges, short_ranges, owner, mig, dup }
 }
 
 fn monitor(truth: &Truth, ph: &Phases, obs: &BTreeMap<u64, Vec<Obs>>) -> String {
@@ -421,8 +436,8 @@ fn monitor(truth: &Truth, ph: &Phases, obs: &BTreeMap<u64, Vec<Obs>>) -> String 
     }
     let head = if fails.is_empty() { "ok".to_string() } else { fails.join("|") };
     format!(
-        "{} chases={} maxredir_stable={} maxredir_migrating={} ended_queued={} queued_node_barrier={}",
-        head, chases, max_redir[0], max_redir[1], ended_q, q_node_barrier
+        "{} chases={} maxredir_stable={} maxredir_migrating={} ended_queued={} queued_node_barrier={} one_slot_ranges={} short_ranges={}",
+        head, chases, max_redir[0], max_redir[1], ended_q, q_node_barrier, truth.one_slot_ranges, truth.short_ranges
     )
 }
 
